@@ -36,6 +36,14 @@ const Rule = "case = (grammar, one transformation): the grammar description line
 	"of terminals = alternatives = productions, of alternatives in one prefix group, of members of a unit closure, of nullable and of " +
 	"unreachable symbols; for grammars whose shortest sentence is longer than the default bound the oracle compares sentences up to that " +
 	"length + 3 (when there are at most 300) " +
+	"+ second round: EVERY size from 0 to 200 of the cheap dimensions (alternatives = terminals = productions, one prefix group, " +
+	"unreachable symbols, a chain of non-terminals with a left-recursive cluster at its end, body length with nullable symbols at the end / at " +
+	"0 and the middle) — quick: one transformation per size and family, rotating with size and seed; thorough: every transformation —, " +
+	"production heads / terminals chosen by calling grammar.HashNonTerminal / HashSymbol so that 16-24 (34-40) of them share one probe path of " +
+	"the 31-slot (and 67-slot) quadratic-probing table (gx.SameBucketNames), and each transformation's special shapes at the sweep sizes: unit " +
+	"chains against the name order, left recursion through a ring of all n non-terminals, print-alike bodies under different heads that come " +
+	"under one head (through n unit productions / inside bodies of n symbols), A B AB all nullable after n symbols, nullable symbols at both " +
+	"ends of a body of n symbols; terminals called exactly what a transformation is about to call a fresh non-terminal (S′, A′, A₁, aₙ) " +
 	"+ component history (harness/c08/history.go): a pool of live *grammar.CFG objects kept and reused from op to op — `apply i T j` " +
 	"(the seven transformations, START / TERM / BIN, Clone; the result object is the operand of later ops), edits through " +
 	"g.Productions.Add/Remove, g.NonTerminals.Add, g.Terminals.Add, NullableNonTerminals, ComputeFIRST+ComputeFOLLOW, Equal (also of an object with " +
@@ -195,6 +203,11 @@ func Exec(c hx.Case) hx.Result {
 	tags := map[string]bool{}
 	for i := 0; i < p.NDef; i++ {
 		res.Outs = append(res.Outs, "ok")
+	}
+	if len(p.Ops) > 0 && !Builds(g) {
+		res.Outs = append(res.Outs, "hang")
+		bad(p.NDef, "", "NewCFG did not return within %v for this grammar", callTimeout)
+		return res
 	}
 	valid, _ := Valid(g)
 	inScope := valid
